@@ -280,12 +280,12 @@ def check(run, replay=None):
     if run.tier == "quick":
         stress_cases(run, run.seed, mods, 24, 6)
         sparse_cases(run, run.seed, mods, 60)
-        if os.path.exists(os.path.join(VERIF, "vlib", "sched_c13.py")):
+        if not os.environ.get("VERIF_ASAN_RERUN"):
             sched_tier(run, run.seed, 24, 12, 6)
     else:
         stress_cases(run, run.seed, mods, 400, 25)
         sparse_cases(run, run.seed, mods, 2000)
-        if os.path.exists(os.path.join(VERIF, "vlib", "sched_c13.py")):
+        if not os.environ.get("VERIF_ASAN_RERUN"):
             sched_tier(run, run.seed, 300, 60, 40)
     run.extra["thread_counts"] = list(THREADS)
     run.require_counter("libgomp_runs", 500)
